@@ -184,6 +184,13 @@ func (c05) Gen(r *sim.RNG, tier string, idx int) *Scenario {
 				// an optional member that is (most probably) absent
 				ref += []string{"/not", "/items", "/additionalProperties", "/additionalItems"}[r.Intn(4)]
 			}
+		case 6:
+			if t.Kind == "schema" {
+				// a member the designated schema does not have (map, slice and pointer members of the typed form)
+				if x := absentMemberOf(w, w.Root, ref, r); x != "" {
+					ref = x
+				}
+			}
 		}
 		entries := c05Entries[t.Kind]
 		op := Op{Entry: entries[r.Intn(len(entries))], Ref: ref, Ptr: "/" + t.Kind}
